@@ -15,7 +15,7 @@ import threading
 
 _DIR = os.environ.get("VERIF_OBS_DIR")
 _CAP = int(os.environ.get("VERIF_OBS_CAP", "6000"))
-_count = {"gen": 0, "sp": 0}
+_count = {"gen": 0, "sp": 0, "ds": 0}
 _TARGETS = {}
 
 
@@ -45,6 +45,10 @@ def pytest_configure(config):
             _TARGETS[fn.__code__] = ("gen", name, {k: p.default for k, p in sig.parameters.items()})
         except (TypeError, ValueError, AttributeError):
             pass
+    from maze_dataset.dataset.maze_dataset import MazeDataset
+
+    gen_ds = MazeDataset.__dict__["generate"]
+    _TARGETS[getattr(gen_ds, "__func__", gen_ds).__code__] = ("ds", "generate", {})
     sp_fn = LatticeMaze.find_shortest_path
     _TARGETS[getattr(sp_fn, "__func__", sp_fn).__code__] = ("sp", "find_shortest_path", {})
 
@@ -88,13 +92,32 @@ def pytest_configure(config):
             return None
         return dict(R=int(R_), C=int(C_), conn=cl.astype(int).tolist(), s=[int(s[0]), int(s[1])], e=[int(e[0]), int(e[1])])
 
+    def ds_call(L):
+        """MazeDataset.generate(cfg, ...): the configuration as it is when the call starts (JSON-able projection)"""
+        cfg = L.get("cfg")
+        g, n = int(cfg.grid_n), int(cfg.n_mazes)
+        if g > 10 or n > 60:
+            return None
+        ek = {}
+        for k, v in dict(cfg.endpoint_kwargs).items():
+            ek[k] = [[int(x[0]), int(x[1])] for x in v] if isinstance(v, (list, tuple)) else v
+        ck = {k: (v if isinstance(v, (int, float, bool, type(None), str)) else None) for k, v in dict(cfg.maze_ctor_kwargs).items()}
+        return dict(grid_n=g, n_mazes=n, ctor=str(getattr(cfg.maze_ctor, "__name__", cfg.maze_ctor)), ctor_kwargs=ck, endpoint_kwargs=ek, name=str(cfg.name), parallel=bool(L.get("gen_parallel", False)))
+
+    def item_raw(m):
+        cl = np.asarray(m.connection_list)
+        sol = getattr(m, "solution", None)
+        sp_, ep_ = getattr(m, "start_pos", None), getattr(m, "end_pos", None)
+        return dict(shape=[int(x) for x in cl.shape], conn=cl.astype(int).tolist() if cl.ndim == 3 else [], sol=[[int(a), int(b)] for a, b in sol] if sol is not None else [],
+                    start=[int(sp_[0]), int(sp_[1])] if sp_ is not None else [], end=[int(ep_[0]), int(ep_[1])] if ep_ is not None else [])
+
     def tracer(frame, ev, arg):
         t = _TARGETS.get(frame.f_code)
         if t is None:
             return None
         kind, name, defaults = t
         try:
-            call = gen_call(name, defaults, frame.f_locals) if kind == "gen" else sp_call(frame.f_locals)
+            call = gen_call(name, defaults, frame.f_locals) if kind == "gen" else ds_call(frame.f_locals) if kind == "ds" else sp_call(frame.f_locals)
         except Exception:  # noqa: BLE001 - observation must never disturb the test
             call = None
         if call is None:
@@ -114,6 +137,9 @@ def pytest_configure(config):
                             rec["kwj"] = json.dumps({kk: (list(vv) if isinstance(vv, tuple) else vv) for kk, vv in kw.items()}, default=str)
                             rec["src"] = "repo_tests"
                             _emit("gen", rec)
+                    elif kind == "ds":
+                        if arg2 is not None:
+                            _emit("ds", dict(cfg=call, n_got=int(len(arg2.mazes)), items=[item_raw(m) for m in arg2.mazes], src="repo_tests"))
                     else:
                         rec = dict(call)
                         if arg2 is not None:
